@@ -1,7 +1,94 @@
-(* ops answered by the executable specification (Spec.v) *)
+(* ops answered by the executable specification (coq/Spec.v, coq/SpecX.v): the oracle used both to state
+   what the properties demand on a concrete input and to search for a failing input *)
 module ZA = Z
 type ostring = string
 open Jv
 open Util
 
-let eval (toks : ostring list) : ostring = ignore toks; raise Unsupported
+let ccal_of (t : ostring) : cal =
+  match t with
+  | "J" -> CJ
+  | "G" -> CG
+  | "X" -> CR (zi 2299161)
+  | _ ->
+    if String.length t < 2 || t.[0] <> 'R' then raise Bad_case;
+    let r = i32 (String.sub t 1 (String.length t - 1)) in
+    let v = zarith_of_z r in
+    if ZA.lt v (ZA.of_int 1830692) || ZA.gt v (ZA.of_int 2147439588) then raise Bad_cal;
+    CR r
+
+let zz = zarith_of_z
+let in_i32z (v : z) = in_range "-2147483648" "2147483647" (zz v)
+
+let spec_shape_s (c : cal) (y : z) (m : month) : ostring =
+  match month_shape_spec c y m with
+  | None -> "None"
+  | Some ms ->
+    let s = ms.monthShape_f_inner in
+    let gap = match sh_gap s with None -> "None" | Some (a, b) -> zs a ^ "..=" ^ zs b in
+    let kind = match s with
+      | Inner_MonthShape_Normal _ -> "Normal" | Inner_MonthShape_Headless _ -> "Headless"
+      | Inner_MonthShape_Tailless _ -> "Tailless" | Inner_MonthShape_Gapped _ -> "Gapped" in
+    Printf.sprintf "Some(%s;len=%s;first=%s;last=%s;gap=%s;kind=%s;year=%s;month=%s;cal=%s)" (shape_s s)
+      (zs (sh_len s)) (zs (sh_first s)) (zs (sh_last s)) gap kind (zs y) (month_num m) (cal_s (Jv.cal_of c))
+
+let eval (toks : ostring list) : ostring =
+  match toks with
+  | ["reforming"; r] ->
+    let v = zz (i32 r) in
+    if ZA.lt v (ZA.of_int 1830692) then "Err InvalidReformation"
+    else if ZA.gt v (ZA.of_int 2147439588) then "Err Arithmetic"
+    else "Ok " ^ cal_s (Jv.cal_of (CR (i32 r)))
+  | ["at_jdn"; c; j] -> let c = ccal_of c in date_s (date_of c (i32 j))
+  | ["at_ymd"; c; y; m; d] -> let c = ccal_of c in res_date (at_ymd_spec c (i32 y) (month_of_int m) (u32 d))
+  | ["at_ordinal_date"; c; y; o] -> let c = ccal_of c in res_date (at_ordinal_date_spec c (i32 y) (u32 o))
+  | ["year_kind"; c; y] -> let c = ccal_of c in ykind_s (ykind_gen (year_kind_of c (i32 y)))
+  | ["year_length"; c; y] -> let c = ccal_of c in zs (year_count c (i32 y))
+  | ["month_shape"; c; y; m] -> let c = ccal_of c in spec_shape_s c (i32 y) (month_of_int m)
+  | ["shape_q"; c; y; m; d] ->
+    let c = ccal_of c in
+    let y = i32 y in let m = month_of_int m in let d = u32 d in
+    (match month_shape_spec c y m with
+     | None -> "None"
+     | Some ms ->
+       let s = ms.monthShape_f_inner in
+       let len = zz (sh_len s) in
+       let nth = if ZA.leq ZA.one (zz d) && ZA.leq (zz d) len then Some (sh_nth s d) else None in
+       let nth_date = match nth with
+         | None -> None
+         | Some day -> (match at_ymd_spec c y m day with Ok dt -> Some dt | Err _ -> None) in
+       Printf.sprintf "contains=%s;day_ordinal=%s;nth_day=%s;nth_date=%s" (bool_s (sh_in s d))
+         (opt zs (if sh_in s d then Some (sh_ord s d) else None)) (opt zs nth) (opt date_s nth_date))
+  | ["succ"; c; j] ->
+    let c = ccal_of c in
+    let j1 = z_of_zarith (ZA.succ (zz (i32 j))) in
+    if in_i32z j1 then "Some(" ^ date_s (date_of c j1) ^ ")" else "None"
+  | ["pred"; c; j] ->
+    let c = ccal_of c in
+    let j1 = z_of_zarith (ZA.pred (zz (i32 j))) in
+    if in_i32z j1 then "Some(" ^ date_s (date_of c j1) ^ ")" else "None"
+  | ["boundary"; c] ->
+    (match ccal_of c with
+     | CR r -> Printf.sprintf "last=Some(%s);first=Some(%s)" (date_s (date_of (CR r) (z_of_zarith (ZA.pred (zz r))))) (date_s (date_of (CR r) r))
+     | _ -> "last=None;first=None")
+  | ["observers"; c] ->
+    (match ccal_of c with
+     | CR r -> Printf.sprintf "reformation=Some(%s);is_reforming=true;is_proleptic=false" (zs r)
+     | _ -> "reformation=None;is_reforming=false;is_proleptic=true")
+  | ["unix2jdn"; t] ->
+    let t = zz (i64 t) in
+    let d = ZA.fdiv t (ZA.of_int 86400) in let s = ZA.sub t (ZA.mul d (ZA.of_int 86400)) in
+    let j = ZA.add d (ZA.of_int 2440588) in
+    if in_range "-2147483648" "2147483647" j then Printf.sprintf "Ok(%s,%s)" (ZA.to_string j) (ZA.to_string s) else "Err"
+  | ["jdn2unix"; j] -> ZA.to_string (ZA.mul (ZA.sub (zz (i32 j)) (ZA.of_int 2440588)) (ZA.of_int 86400))
+  | ["at_unix_time"; c; t] ->
+    let c = ccal_of c in
+    let t = zz (i64 t) in
+    let d = ZA.fdiv t (ZA.of_int 86400) in let s = ZA.sub t (ZA.mul d (ZA.of_int 86400)) in
+    let j = ZA.add d (ZA.of_int 2440588) in
+    if in_range "-2147483648" "2147483647" j then Printf.sprintf "Ok(%s,%s)" (date_s (date_of c (z_of_zarith j))) (ZA.to_string s) else "Err"
+  | ["weekday"; j] ->
+    let j = zz (i32 j) in
+    let m = ZA.sub j (ZA.mul (ZA.fdiv j (ZA.of_int 7)) (ZA.of_int 7)) in ZA.to_string (ZA.succ m)
+  | ["convert"; c1; j; c2] -> let _ = ccal_of c1 in let c2 = ccal_of c2 in date_s (date_of c2 (i32 j))
+  | _ -> raise Unsupported
